@@ -147,9 +147,26 @@ def size(t):
     return 0 if t[0] in "LS" else 1 + sum(size(x) for x in t[1:])
 
 
+def beyond_int64(w, t):
+    """A scalar-only subtree whose exact Python-int value does not fit a 64-bit integer (big*big*big): torch
+    cannot multiply a tensor by such a scalar at all (OverflowError), so the tree is outside the alphabet."""
+    if t[0] in "LS":
+        return False
+    try:
+        k, v = w.interp(t)
+    except Reject:
+        k, v = "rejected", None
+    if k == "num" and isinstance(v, int) and not isinstance(v, bool) and abs(v) >= 2 ** 63:
+        return True
+    return any(beyond_int64(w, x) for x in t[1:])
+
+
 def check_tree(acc, w, t, stats=False):
     case = dict(tree=t)
     nontriv = size(t) > 0
+    if size(t) >= 2 and beyond_int64(w, t):
+        acc.outcome("outside-alphabet:int-scalar-beyond-64-bit")
+        return
     try:
         kind, want = w.interp(t)
     except Reject:
